@@ -50,6 +50,9 @@ type k2Result struct {
 	BuildErrors []string
 	Races       []string
 	GenOutcomes map[string]int
+	GenErrors   []string
+	GenMismatch []map[string]any // generation outcome differs between implementation and model
+	GenCompared int
 }
 
 // runK2 generates, compiles and executes the batches; for every call it returns the implementation's and the model's answer.
@@ -78,7 +81,7 @@ func runK2(e *env, name string, batches []*k2Batch) (*k2Result, error) {
 			root := filepath.Join(base, fmt.Sprintf("b%d", bi))
 			var convs strings.Builder
 			for _, n := range kb.Order {
-				convs.WriteString(kb.Convs[n])
+				convs.WriteString(strings.ReplaceAll(kb.Convs[n], "MODULE", module))
 			}
 			imports := ""
 			if strings.Contains(kb.Extra, "rt.") {
@@ -108,6 +111,9 @@ func runK2(e *env, name string, batches []*k2Batch) (*k2Result, error) {
 			mu.Lock()
 			for _, oc := range b.Outcomes {
 				res.GenOutcomes[oc.Stage]++
+				if oc.Stage != "ok" && len(res.GenErrors) < 12 {
+					res.GenErrors = append(res.GenErrors, oc.Stage+": "+gvx.ClassifyGenErr(oc.Err)+" … "+lastN(oc.Err, 260))
+				}
 			}
 			if ex.BuildErr != "" {
 				res.BuildErrors = append(res.BuildErrors, fmt.Sprintf("batch %s#%d: %s", kb.Tag, bi, truncate(ex.BuildErr, 3000)))
@@ -126,6 +132,32 @@ func runK2(e *env, name string, batches []*k2Batch) (*k2Result, error) {
 				failNode.Add(sx.H("f", sx.S(f[0]), sx.S(f[1])))
 			}
 			lines = append(lines, failNode.String())
+			// generation-stage diagnostics are compared with the model as well
+			var greqs []*sx.Node
+			var gocs []*gvx.ConvOutcome
+			for _, oc := range b.Outcomes {
+				if oc.Stage == "generate" && oc.Conv != nil {
+					if req, unsupported := gvx.GenRequest(0, oc.Conv); len(unsupported) == 0 {
+						greqs = append(greqs, req)
+						gocs = append(gocs, oc)
+					}
+				}
+			}
+			if gans, err := drv.Run(greqs); err == nil {
+				mu.Lock()
+				for i, a := range gans {
+					res.GenCompared++
+					want := "(err " + gvx.ClassifyGenErr(gocs[i].Err) + ")"
+					if a.String() != want && !strings.HasPrefix(a.String(), "(err unsupported") {
+						res.GenMismatch = append(res.GenMismatch, map[string]any{"converter": kb.Convs[gocs[i].Raw.InterfaceName], "implementation": want,
+							"model": truncate(a.String(), 300), "impl_error": lastN(gocs[i].Err, 500)})
+					}
+				}
+				mu.Unlock()
+			} else {
+				fail(err)
+				return
+			}
 			for _, oc := range b.Outcomes {
 				if oc.Stage != "ok" {
 					continue
@@ -221,3 +253,10 @@ func runK2(e *env, name string, batches []*k2Batch) (*k2Result, error) {
 
 var _ = types.Unalias
 var _ = rng.New
+
+func lastN(s string, n int) string {
+	if len(s) <= n {
+		return s
+	}
+	return s[len(s)-n:]
+}
